@@ -34,7 +34,7 @@ def main():
     pkg = args[args.index("--pkg") + 1] if "--pkg" in args else None
     tier = args[args.index("--tier") + 1] if "--tier" in args else "quick"
     src = os.path.join(ROOT, "seeded", f"{pid}-{which}")
-    for cand in (f"/tmp/mut-c{pid[1:]}-out/{which}", f"/tmp/mut2-c{pid[1:]}-out/{which}"):
+    for cand in (f"/tmp/mut-c{pid[1:]}-out/{which}", f"/tmp/mut2-c{pid[1:]}-out/{which}", f"/tmp/mut3-c{pid[1:]}-out/{which}"):
         if os.path.exists(os.path.join(cand, "patch.diff")):
             src = cand
             break
@@ -135,17 +135,17 @@ def main():
         if confirmed:
             dst = os.path.join(ROOT, "seeded", f"{pid}-{which}")
             os.makedirs(dst, exist_ok=True)
+            prev = {}
+            try:
+                prev = json.load(open(os.path.join(dst, "meta.json")))   # before the copy below overwrites it
+            except Exception:
+                pass
             if os.path.abspath(src) != os.path.abspath(dst):
                 for f in glob.glob(os.path.join(src, "*")):
                     if os.path.isfile(f):
                         shutil.copy(f, dst)
                     elif os.path.isdir(f):
                         shutil.copytree(f, os.path.join(dst, os.path.basename(f)), dirs_exist_ok=True)
-            prev = {}
-            try:
-                prev = json.load(open(os.path.join(ROOT, "seeded", f"{pid}-{which}", "meta.json")))
-            except Exception:
-                pass
             for keep in ("first_check_result", "strengthening"):
                 if keep in prev:
                     meta[keep] = prev[keep]
